@@ -23,7 +23,8 @@ Classes == {"obs_first", "obs_same", "secret_zero_heavy", "secret_f_heavy", "sec
 
 (* <<ok, classes, seen', ctl'>> *)
 V(ev) ==
-  CASE ev.ev = "ct.Obs" ->
+  CASE ev.ev = "lib.Unexpected" -> << FALSE, {}, seen, ctl >>   \* a call that must succeed failed or panicked
+    [] ev.ev = "ct.Obs" ->
          LET k == <<ev.build, ev.op, ev.pub>>
              cl == ({"secret_" \o ev.cls, "op_" \o ev.group, "build_" \o ev.build}) \cap Classes IN
          IF ev.control
